@@ -699,6 +699,76 @@ def rule_N4(ctx):
     ctx.floor('C13.N4.select', 4)
 
 
+FRESH_CALLS = ('np.array', 'np.ones', 'np.zeros', 'np.full', 'np.empty',
+               'np.copy', 'np.sqrt', 'np.abs', 'abs', 'np.ones_like',
+               'np.full_like', 'np.tile', 'np.repeat', 'np.concatenate')
+
+
+def _fresh(e, fn, depth=4):
+    """Does the expression yield an array of its own (arithmetic result,
+    np.array / .copy() / constructors), not a view of or the very object the
+    caller handed in (np.asarray, np.broadcast_to, reshape, a bare name)?"""
+    if isinstance(e, ast.BinOp):
+        return True
+    if isinstance(e, ast.Call):
+        f = ast.unparse(e.func)
+        if f in FRESH_CALLS:
+            return not any(k.arg == 'copy' and ast.unparse(k.value) == 'False'
+                           for k in e.keywords)
+        if isinstance(e.func, ast.Attribute) and e.func.attr in (
+                'copy', 'astype', '__mul__', '__add__'):
+            return not any(k.arg == 'copy' and ast.unparse(k.value) == 'False'
+                           for k in e.keywords)
+        return False
+    if isinstance(e, ast.Name) and depth:
+        v = au.value_of(e, fn)
+        if v is not e:
+            return _fresh(v, fn, depth - 1)
+        ds = [d for d in au.all_defs(fn).get(e.id, [])] if hasattr(
+            au, 'all_defs') else []
+        vals = [d for d in ds if d is not None]
+        return bool(vals) and all(
+            isinstance(d, ast.AST) and _fresh(d, fn, depth - 1) for d in vals)
+    return False
+
+
+def rule_N3_own(ctx):
+    """The arrays a survey keeps as noise floor / relative error / standard
+    deviation are its own: an assignment stores a fresh array, so that a
+    later in-place change of the array the caller handed in is not an
+    operation that changes the noise model (and cannot bypass the positivity
+    test)."""
+    sm = ctx.repo.mod(SURV)
+    sites = []
+    for label, fn in (('standard_deviation setter', [
+            m for m in sm.methods('Survey', 'standard_deviation')
+            if any('setter' in d for d in au.decorator_names(m))]),
+            ('_set_nf_re', [sm.method('Survey', '_set_nf_re')])):
+        ctx.anchor(len(fn) == 1, f'Survey {label}')
+        f = fn[0]
+        for n in ast.walk(f):
+            if isinstance(n, ast.Assign) and isinstance(
+                    n.targets[0], ast.Subscript) and ast.unparse(
+                    n.targets[0].value) in ('self.data', 'self._data'):
+                sites.append((label, f, n))
+    ctx.anchor(len(sites) >= 2, 'stores of noise arrays into the data set')
+    for label, f, n in sites:
+        v = n.value
+        data = None
+        if isinstance(v, ast.Call) and isinstance(v.func, ast.Attribute) \
+                and v.func.attr == 'copy':
+            kw = [k.value for k in v.keywords if k.arg == 'data']
+            data = kw[0] if kw else None
+        ok = data is not None and _fresh(data, f)
+        ctx.check('C13.N3.own', f'Survey {label}: `{au.stext(n)[:60]}` '
+                  'stores an array of its own', ok, 'the array stored as '
+                  'noise data is (a view of) the object the caller handed '
+                  f'in (`{ast.unparse(data) if data is not None else "?"}`)'
+                  ': changing that array in place afterwards changes the '
+                  'noise model of the survey without an assignment, and '
+                  'without the positivity test', ctx.where(sm, n))
+
+
 def run(ctx):
     ctx.explanation = (
         'The noise-model formulas are lifted from the AST into sympy and '
@@ -718,6 +788,7 @@ def run(ctx):
     rule_N3_flag(ctx)
     rule_N3_scalar(ctx)
     rule_N3_attrs(ctx)
+    rule_N3_own(ctx)
     rule_N4(ctx)
     # cached weights (1/std^2) must not survive a replacement of the
     # observed data they were computed from (shared rule with C12.OW2)
